@@ -97,7 +97,9 @@ mut("C17-revert-lazylib-fatal-fix", "fint.c",
     "	if (lib == NULL)\n		comsgFatal(NULL, ALDOR_F_CantOpen,\n			   strEqual(name, \"runtime\") ? \"libfoam.al\" : aoFile);",
     "	if (lib == NULL)\n		LongJmp(fintJmpBuf, 1);")
 mut("C13-revert-syntax-error-undo-fix", "axlcomp.c",
-    "scopeBindSkipStep(stab);", "(void)stab;", count=2)
+    "scopeBindSkipStep(stab);", "(void)stab;", count=4)
+mut("C13-revert-include-error-undo-fix", "axlcomp.c",
+    "			if (fintMode == FINT_LOOP) scopeBindSkipStep(stab);\n			inclFree(sll);", "			inclFree(sll);")
 
 mut("C18-revert-exit-status-clamp", "main.c",
     "	return rc > 255 ? 255 : rc;", "	return rc;")
